@@ -73,7 +73,8 @@ def run_cases(ck, res, n_cases, n_interval):
                 if not enga.close(mv, yv[i], 1.0):
                     ck.broke('correspondence-broken', f'pyfront:{name}', f'model {mv!r} impl {yv[i]!r} at ({ths[i]},{phs[i]})')
             if len(goals) < n_interval:
-                goals.append(enga.interval_goal(name, term, {'theta': ths[0], 'phi': phs[0]}, {}, {}, yv[0], 1.0))
+                goals.append(enga.interval_goal(name, term, {'theta': ths[0], 'phi': phs[0]}, {}, {}, yv[0], 1.0,
+                                                gen=('Gen_C17', name, 'term'), names=res[name]['names']))
     # ---- (3) basis-space Laplacians vs the full Laplacians of the expanded field, random coefficient functions
     for ci in range(n_cases):
         kind = ['harmonics', 'zonal', 'fourier'][ci % 3]
